@@ -27,15 +27,71 @@ Section EqHDDMA.
   Definition h_wf (s : hddma_st A) : Prop :=
     (0 <= hn s /\ 0 <= m_n (hz s) /\ 0 <= m_n (hx s) /\ 0 <= m_n (hy s))%Z.
 
+  (** the OneSided test object's methods, one at a time *)
+  Definition t1 (ad aw : num A) (x z : mean_st A) := (ad, aw, mean_t x, mean_t z).
+
+  Lemma T1_set_initial_eq : forall ad aw x z,
+    HoeffdingOneSidedTest_set_initial_cut_mean (t1 ad aw x z) = Ok (t1 ad aw (if (m_n x =? 0)%Z then z else x) z, tt).
+  Proof. intros. autounfold with gensrc. unfold t1, mean_t. cbn. destruct (m_n x =? 0)%Z; reflexivity. Qed.
+
+  Lemma T1_update_cut_eq : forall ad aw x z eps,
+    HoeffdingOneSidedTest_update_cut_point (t1 ad aw x z) eps =
+      Ok (t1 ad aw (if leb (add (m_mean z) eps) (add (m_mean x) (hoeff_bound ad (m_n x))) then z else x) z, tt).
+  Proof. intros. autounfold with gensrc. unfold t1, mean_t, hoeff_bound, one. cbn -[Z.mul]. bdec; reflexivity. Qed.
+
+  Lemma T1_check_cases_eq : forall c x z, (m_n x <> 0 -> m_n z <> 0 ->
+    HoeffdingOneSidedTest_check_cases (t1 (ha_alpha_d c) (ha_alpha_w c) x z) =
+      Ok (t1 (ha_alpha_d c) (ha_alpha_w c) x z, side_cases (check_incr x z) (m_n x) (m_n z) c))%Z.
+  Proof.
+    intros c x z Hx Hz. autounfold with gensrc. unfold t1, mean_t, side_cases, check_incr, hoeff_thr, one.
+    assert (Ex : (2 * m_n x * m_n z =? 0)%Z = false) by (apply Z.eqb_neq; nia).
+    cbn -[Z.mul].
+    destruct (Z.eqb_spec (m_n z - m_n x) 0); destruct (Z.eqb_spec (m_n x) (m_n z)); try lia; cbn -[Z.mul]; rewrite ?Ex; cbn -[Z.mul];
+      [reflexivity|].
+    repeat (match goal with |- context [if @leb ?B ?a ?b then _ else _] => destruct (@leb B a b) eqn:? end; cbn -[Z.mul]; rewrite ?Ex; cbn -[Z.mul]); reflexivity.
+  Qed.
+
+  Lemma T1_reset_eq : forall ad aw x z, HoeffdingOneSidedTest_reset (t1 ad aw x z) = Ok (t1 ad aw mean_init mean_init, tt).
+  Proof. reflexivity. Qed.
+
+  Ltac fold_t1 := match goal with
+    | |- context [(?ad, ?aw, (m_mean ?x, m_n ?x), (m_mean ?z, m_n ?z))] =>
+        change (ad, aw, (m_mean x, m_n x), (m_mean z, m_n z)) with (t1 ad aw x z)
+    end.
+  Ltac red1 := cbn -[HoeffdingOneSidedTest_set_initial_cut_mean HoeffdingOneSidedTest_update_cut_point HoeffdingOneSidedTest_check_cases
+                     HoeffdingOneSidedTest_reset Mean_update Z.mul hddma_step mean_update hoeff_bound side_cases check_incr check_decr].
+
   Lemma HDDMA1_update_eq : forall c s v, ha_two c = false -> h_wf s ->
     HDDMA1__update (h1_t c s) v = Ok (h1_t c (hddma_step c s v), tt).
   Proof.
     intros c [n x z y d w] v H2 (Hn & Hz & Hx & Hy). cbn in Hn, Hz, Hx, Hy.
-    autounfold with gensrc. unfold h1_t, hcfg_t, hddma_step, side_cases, check_incr, check_decr, hoeff_thr, hoeff_bound,
-      mean_update, mean_init, incr_op, mean_t, one, zero.
-    rewrite H2. cbn -[Z.mul].
-    repeat (cbn -[Z.mul]; zdec); repeat (cbn -[Z.mul]; bdec); cbn -[Z.mul]; try reflexivity;
-      try (exfalso; cbn -[Z.mul Z.add Z.sub] in *; lia).
+    unfold HDDMA1__update, h1_t, hcfg_t. cbn [hn hx hz hy hdrift hwarning]. red1.
+    destruct (Z.ltb_spec (n + 1) 0); [lia|]. red1.
+    change (m_mean z, m_n z) with (mean_t z). rewrite (Mean_update_eq z v Hz). red1.
+    assert (Hz' : (1 <= m_n (mean_update z v))%Z) by (cbn; lia).
+    remember (mean_update z v) as z' eqn:Ez'.
+    unfold mean_t. fold_t1. rewrite T1_set_initial_eq. unfold t1 at 1, mean_t. red1.
+    remember (if (m_n x =? 0)%Z then z' else x) as x0 eqn:Ex0.
+    assert (Hx0 : m_n x0 <> 0%Z) by (subst x0; destruct (Z.eqb_spec (m_n x) 0); lia).
+    fold_t1. rewrite T1_update_cut_eq. unfold t1 at 1, mean_t. red1.
+    match goal with |- context [if leb ?a ?b then z' else x0] => remember (if leb a b then z' else x0) as x1 eqn:Ex1 end.
+    assert (Hx1 : m_n x1 <> 0%Z) by (subst x1; match goal with |- context [if ?b then _ else _] => destruct b end; lia).
+    assert (Hstep : exists y1, hddma_step c {| hn := n; hx := x; hz := z; hy := y; hdrift := d; hwarning := w |} v =
+      if (ha_min c <=? n + 1)%Z then
+        let '(di, wi) := side_cases (check_incr x1 z') (m_n x1) (m_n z') c in
+        if di || false then {| hn := n + 1; hx := mean_init; hz := mean_init; hy := mean_init; hdrift := true; hwarning := false |}
+        else {| hn := n + 1; hx := x1; hz := z'; hy := y1; hdrift := false; hwarning := wi || false |}
+      else {| hn := n + 1; hx := x1; hz := z'; hy := y1; hdrift := false; hwarning := false |}).
+    { exists y. unfold hddma_step. cbn [hn hx hz hy]. rewrite H2. rewrite <- Ez', <- Ex0.
+      unfold hoeff_bound in Ex1 |- *. unfold one in *. rewrite <- Ex1.
+      destruct (ha_min c <=? n + 1)%Z; [destruct (side_cases _ _ _ c)|]; reflexivity. }
+    destruct Hstep as [y1 Hstep]. rewrite Hstep. clear Hstep.
+    destruct (Z.leb (ha_min c) (n + 1)); red1; [|rewrite H2; reflexivity].
+    fold_t1. rewrite (T1_check_cases_eq c x1 z' Hx1 ltac:(lia)). red1.
+    destruct (side_cases (check_incr x1 z') (m_n x1) (m_n z') c) as [di wi]. red1.
+    destruct di; red1.
+    - fold_t1. rewrite T1_reset_eq. cbn. rewrite H2. reflexivity.
+    - rewrite H2. destruct wi; reflexivity.
   Qed.
 
   (** the TwoSided test object's methods, one at a time (each a handful of cases) *)
